@@ -69,6 +69,8 @@ pub enum Typed {
     U64(u64),
     Isize(isize),
     Usize(usize),
+    I128(i128),
+    U128(u128),
     F32(f32),
     F64(f64),
     Unit,
@@ -90,6 +92,8 @@ impl Typed {
             Typed::U64(_) => "u64",
             Typed::Isize(_) => "isize",
             Typed::Usize(_) => "usize",
+            Typed::I128(_) => "i128",
+            Typed::U128(_) => "u128",
             Typed::F32(_) => "f32",
             Typed::F64(_) => "f64",
             Typed::Unit => "unit",
@@ -111,6 +115,8 @@ impl Typed {
             Typed::U64(v) => v.to_string(),
             Typed::Isize(v) => v.to_string(),
             Typed::Usize(v) => v.to_string(),
+            Typed::I128(v) => v.to_string(),
+            Typed::U128(v) => v.to_string(),
             Typed::F32(v) => format!("{:?}", v),
             Typed::F64(v) => format!("{:?}", v),
             Typed::Unit => "()".into(),
@@ -128,6 +134,10 @@ impl Typed {
             Typed::Unit => "T:null".into(),
             Typed::Bool(v) => format!("T:b:{}", v),
             Typed::Str(v) | Typed::String(v) => format!("T:s:{}", v),
+            // 128-bit integers are their own kind of input: the serde bridge refuses them
+            // whatever their value, so they must not share a key with the other widths
+            Typed::I128(v) => format!("T:i128:{}", v),
+            Typed::U128(v) => format!("T:u128:{}", v),
             other => format!("T:i:{}", other.val()),
         }
     }
@@ -143,6 +153,8 @@ impl Typed {
             "u64" => Typed::U64(v.parse().ok()?),
             "isize" => Typed::Isize(v.parse().ok()?),
             "usize" => Typed::Usize(v.parse().ok()?),
+            "i128" => Typed::I128(v.parse().ok()?),
+            "u128" => Typed::U128(v.parse().ok()?),
             "f32" => Typed::F32(v.parse().ok()?),
             "f64" => Typed::F64(v.parse().ok()?),
             "unit" => Typed::Unit,
